@@ -4,12 +4,13 @@ from .. import core, gen, ref
 from . import cu
 
 MODULES = ['DsdVerif.Props.C07']
-GEN_FILES = []
+GEN_FILES = ['PyExprs']
 THEOREMS = []          # filled below from THEOREM_NAMES that exist in Props/C07.lean
 THEOREM_NAMES = ['rotateOnce_pairs', 'rotateOnce_single', 'rotateOnce_strands', 'rotate_period', 'rotatePtOnce_spec',
                  'rotationsPt_length', 'wrap_eq_emod', 'rotateOnce_pairtable', 'rotatePtOnce_inverts',
                  'connected_rotation_invariant']
-THEOREMS = ['Dsd.C07.' + t for t in THEOREM_NAMES]
+THEOREMS = ['Dsd.C07.' + t for t in THEOREM_NAMES] + ['Dsd.PyExprs.py_wrap_eq_model', 'Dsd.PyExprs.py_wrap_spec',
+                                                         'Dsd.PyExprs.py_rotate_pairtable_loc_eq']
 ASSUMPTIONS = [
     'rotate_complex_once / rotate_complex_pt are hand-modelled (Model/Complex.lean: rotateOnce, rotatePtOnce, rotationsPt) and tied '
     'to the code by the correspondence streams rot1 / rotpt',
@@ -25,7 +26,8 @@ MANIFEST = {
             'exhaustive correspondence over every well-formed structure up to a bounded size; the generators, the object methods '
             'rotate()/rotate_pt(), rotate_pairtable_loc and input immutability are checked on the real code by an independent '
             'label-transport oracle.',
-    'note': 'The Python function rotate_pairtable_loc is compared with the proved re-indexing by the oracle (it is one line); '
+    'note': 'wrap and ComplexS.rotate_pairtable_loc are TRANSLATED from the source on every run (Gen/PyExprs.lean) and proved equal to the '
+            'model\'s wrap / rotLoc (py_wrap_eq_model, py_rotate_pairtable_loc_eq); '
             'trusted base as in DESIGN.md section 3.',
     'technique': 'Lean 4 proof: cyclic shift of a non-crossing involution + uniqueness of matchings; correspondence check',
 }
